@@ -76,10 +76,6 @@ Definition assoc (k : string) (obs : sval) : option sval :=
                end) l
   | _ => None
   end.
-Definition res_class (v : sval) : string :=
-  match v with SL (SY c :: _) => c | SY c => c | _ => "malformed" end.
-Definition ok_payload (v : sval) : option sval :=
-  match v with SL [SY c; x] => if String.eqb c "ok" then Some x else None | _ => None end.
 Definition packet_eqb (a b : packet) : bool := sval_eqb (s_packet (canon a)) (s_packet (canon b)).
 Fixpoint packets_eqb (a b : list packet) : bool :=
   match a, b with [], [] => true | x :: a', y :: b' => packet_eqb x y && packets_eqb a' b' | _, _ => false end.
@@ -328,8 +324,21 @@ Definition C06_holds (op impl : sval) : holds :=
               | None | Some [] => if is_class "err" w then HPass else HFail [SY "malformed_accepted"]
               | Some frames =>
                   match ok_packets w with
-                  | Some ws => if (List.length ws =? List.length frames)%nat then HPass else HFail [SY "packet_count"]
-                  | None => if is_class "err" w then HPass else HFail [SY "panic_or_malformed"]
+                  | Some ws =>
+                      if negb (List.length ws =? List.length frames)%nat then HFail [SY "packet_count"]
+                      else
+                        (* locality against the per-frame decoder of the model: when every frame decodes on its own,
+                           the whole must be exactly those packets in order *)
+                        match omap (fun f => match Unmarshal f with Ok [q] => Some q | _ => None end) frames with
+                        | Some qs => if packets_eqb ws qs then HPass else HFail [SY "not_local"]
+                        | None => HPass
+                        end
+                  | None =>
+                      if is_class "err" w then
+                        (* every frame is, on its own, a datagram the decoder accepts, yet the whole is refused *)
+                        if forallb (fun f => match Unmarshal f with Ok [_] => true | _ => false end) frames
+                        then HFail [SY "well_framed_rejected"] else HPass
+                      else HFail [SY "panic_or_malformed"]
                   end
               end
         | _, _, _ => HTrivial
@@ -741,7 +750,71 @@ Definition C18_holds (op impl : sval) : holds :=
   | _ => HTrivial
   end.
 
-Definition prop_holds (prop : string) (op impl meta : sval) : holds :=
+(* ---------------- operations shared by several properties ---------------- *)
+(* (dhist xdatagram (op...)): the statement is evaluated on the packets the IMPLEMENTATION decoded: every result must be
+   the one the packets' values determine (whatever was called before, and whatever memory the packets share with the
+   input or with each other), the packets must end up unchanged apart from the documented ExtendedReport bookkeeping,
+   and the input buffer must not have been written to. *)
+Fixpoint first_diff (ops rs irs : list sval) : list sval :=
+  match ops, rs, irs with
+  | o :: ops', r :: rs', i :: irs' => if sval_eqb r i then first_diff ops' rs' irs' else [o]
+  | _, _, _ => []
+  end.
+Definition dhist_holds (op impl : sval) : holds :=
+  match op with
+  | SL [_; SB b; SL ops] =>
+      match assoc "dec" impl with
+      | Some d =>
+          if is_class "panic" d then HFail [SY "decode_panics"] else
+          match ok_packets d with
+          | None => HTrivial
+          | Some ps =>
+              match dhist_run ps ops, assoc "results" impl, assoc "final" impl, assoc "input" impl with
+              | Some (rs, pf), Some (SL irs), Some ifin, Some inp =>
+                  if negb (sval_eqb inp (sbool true)) then HFail [SY "input_buffer_modified"]
+                  else if negb (sval_eqb (SL rs) (SL irs)) then HFail (SY "result_depends_on_history" :: first_diff ops rs irs)
+                  else if negb (sval_eqb (SL (map s_packet pf)) ifin) then HFail [SY "decoded_packet_modified"]
+                  else HPass
+              | _, _, _, _ => HFail [SY "malformed_observation"]
+              end
+          end
+      | None => HFail [SY "malformed_observation"]
+      end
+  | _ => HTrivial
+  end.
+(* (scribble <Type> xbytes): what the decoder returned must not change when the caller reuses the buffer, for the
+   types whose decoder keeps no reference to it, and must still marshal to what its value determines. *)
+Definition scribble_holds (op impl : sval) : holds :=
+  match assoc "dec" impl, assoc "after" impl, assoc "marshal" impl with
+  | Some d, Some a, Some m =>
+      match ok_payload d with
+      | None => HTrivial
+      | Some v =>
+          if negb (sval_eqb v a) then HFail [SY "decoded_value_aliases_input"; match v with SL (SY n :: _) => SY n | _ => SY "?" end]
+          else match p_packet v with
+               | Some p => if sval_eqb m (sres SB (marshal_packet p)) then HPass else HFail [SY "marshal_after_buffer_reuse"; tname p]
+               | None => HFail [SY "malformed_observation"]
+               end
+      end
+  | _, _, _ => HFail [SY "malformed_observation"]
+  end.
+(* (dec2 <Type> xb1 xb2): a fixed-width unit decoded into a receiver that already holds another unit is the unit on
+   the wire, not a mixture (StatusVectorChunk, whose decoder appends to its symbol list, is left to the comparison
+   with the model). *)
+Definition dec2_holds (op impl : sval) : holds :=
+  match op with
+  | SL [_; SY n; SB b1; SB b2] =>
+      if String.eqb n "StatusVectorChunk" then HTrivial else
+      match assoc "second" impl, dec_by_name n b2 with
+      | Some i2, Some fresh =>
+          if is_class "panic" i2 then HFail [SY "panic"; SY n]
+          else if sval_eqb i2 fresh then HPass else HFail [SY "receiver_state_leaks"; SY n]
+      | _, _ => HFail [SY "malformed_observation"]
+      end
+  | _ => HTrivial
+  end.
+
+Definition prop_holds0 (prop : string) (op impl meta : sval) : holds :=
   if String.eqb prop "C01" then C01_holds op impl meta
   else if String.eqb prop "C02" then C02_holds op impl
   else if String.eqb prop "C03" then C03_holds op impl
@@ -764,6 +837,13 @@ Definition prop_holds (prop : string) (op impl meta : sval) : holds :=
   else if String.eqb prop "C17" then C17_holds op impl
   else if String.eqb prop "C18" then C18_holds op impl
   else HPass.
+Definition prop_holds (prop : string) (op impl meta : sval) : holds :=
+  let o := op_name op in
+  if String.eqb prop "C01" then prop_holds0 prop op impl meta
+  else if String.eqb o "dhist" then dhist_holds op impl
+  else if String.eqb o "scribble" then scribble_holds op impl
+  else if String.eqb o "dec2" then dec2_holds op impl
+  else prop_holds0 prop op impl meta.
 Definition prop_agree (prop : string) (id op m i : sval) : option sval :=
   if String.eqb prop "C12" then C12_agree id op m i
   else if String.eqb prop "C01" then C01_agree id m i
